@@ -135,6 +135,28 @@ Definition contain_prefix (s : shard) (prefix : str) : bool :=
    else is_nil (s_min s) || str_leb (s_min s) prefix)
   && (is_nil (s_max s) || str_ltb prefix (s_max s)).
 
+(* key ranges of a range-sharded group. CreateShardGroupWithBounds (Data.ReSharding): len(bounds)+1 shards, shard i owns
+   [bounds[i-1], bounds[i]) with the first Min and the last Max empty (= open) *)
+Fixpoint ranges_of (lo : str) (bounds : list str) : list (str * str) :=
+  match bounds with
+  | [] => [(lo, [])]
+  | b :: r => (lo, b) :: ranges_of b r
+  end.
+Definition shard_ranges (g : group) : list (str * str) := map (fun s => (s_min s, s_max s)) (g_shards g).
+(* createShards for a range-sharded policy: the first group has one shard owning everything, every later group copies the
+   key ranges of the newest group (rpi.ShardGroups[len-1]) *)
+Definition created_ranges (existing : list group) : list (str * str) :=
+  match rev existing with
+  | [] => [([], [])]
+  | l :: _ => shard_ranges l
+  end.
+(* ReSharding at split time `split`: the new group is [split+1, end of the newest group) *)
+Definition resharded_span (existing : list group) (split : Z) : option (Z * Z) :=
+  match rev existing with
+  | [] => None
+  | l :: _ => Some (split + 1, g_end l)
+  end.
+
 (* ------------------------------------------------------------------ conditions *)
 Inductive expr :=
 | EEq (id : N) (k v : str)      (* VarRef k = StringLiteral v *)
@@ -383,6 +405,7 @@ Definition target_group (v : variant) (c : cfg) (g : group) (cond : option expr)
    is built from ALL tags of that set (UnmarshalShardKeyByTag(nil)); repaired: from the measurement's shard-key tags, and
    no pruning when the set does not bind all of them. Without a shard key the key is the measurement name and all tags
    of the set, as on the write side when the set is the row's full tag set. *)
+Definition hint_point (sorted : tagset) : point := {| p_tags := sorted; p_time := 0; p_leaf := fun _ => false |}.
 Definition target_hint (rep : bool) (v : variant) (c : cfg) (g : group) (cond : option expr) : list shard :=
   match cond with
   | None => all_alive g
@@ -391,14 +414,55 @@ Definition target_hint (rep : bool) (v : variant) (c : cfg) (g : group) (cond : 
       | Some [ts] =>
           let sorted := sort_tags ts in
           let one := fun key => match shard_for c (hash key) g with Some s => [s] | None => [] end in
-          match c_sk c with
-          | [] => one (c_mst c ++ key_suffix sorted)
-          | sk => if rep then (let r := sel_keys sk sorted in if snd r then one (tl (key_suffix (fst r))) else all_alive g)
-                  else one (tl (key_suffix sorted))
-          end
+          if rep then
+            (* the real code builds a Row from the tag set and calls the write path's UnmarshalShardKeyByTag: duplicate
+               tags or a missing shard-key tag = no pruning *)
+            match wkey c (hint_point sorted) with
+            | Some ps => one (hash_arg c ps)
+            | None => all_alive g
+            end
+          else match c_sk c with
+               | [] => one (c_mst c ++ key_suffix sorted)
+               | _ => one (tl (key_suffix sorted))
+               end
       | _ => all_alive g
       end
   end.
+
+(* Hint queries on a RANGE-sharded measurement. Today getShardsAndSeriesKeyForHintQuery always hashes (ShardFor), although
+   the write path places rows of a range-sharded measurement by key range (DestShard): range_rep = false is target_hint,
+   i.e. today's code; range_rep = true looks the key (measurement name + shard-key pairs, as on the write side) up by range. *)
+Definition opt_shard (o : option shard) : list shard := match o with Some s => [s] | None => [] end.
+Definition target_hint_range (range_rep : bool) (v : variant) (c : cfg) (g : group) (cond : option expr) : list shard :=
+  match c_typ c, range_rep with
+  | Range, true =>
+      match cond with
+      | None => all_alive g
+      | Some e =>
+          match cond_tags v (c_tagkeys c) e with
+          | Some [ts] =>
+              match wkey c (hint_point (sort_tags ts)) with
+              | Some ps => opt_shard (dest_shard (c_mst c ++ key_suffix ps) g)
+              | None => all_alive g
+              end
+          | _ => all_alive g
+          end
+      end
+  | _, _ => target_hint true v c g cond
+  end.
+(* specific_series: prunes only when the single tag set has as many entries as the schema has tags *)
+Definition target_hint_kind (specific : bool) (range_rep : bool) (v : variant) (c : cfg) (g : group) (cond : option expr)
+  : list shard :=
+  if specific then
+    match cond with
+    | None => all_alive g
+    | Some e => match cond_tags v (c_tagkeys c) e with
+                | Some [ts] => if Nat.eqb (length ts) (length (c_tagkeys c)) then target_hint_range range_rep v c g cond
+                               else all_alive g
+                | _ => all_alive g
+                end
+    end
+  else target_hint_range range_rep v c g cond.
 
 Definition g_overlaps (g : group) (tmin tmax : Z) : bool := (g_start g <=? tmax) && (tmin <? g_end g).
 Definition query_groups (c : cfg) (tmin tmax : Z) : list group :=
